@@ -38,9 +38,74 @@ impl Rng {
     }
 }
 
-pub const ALPHABETS: [&str; 10] = ["ab", "abc", "meta", "ws", "case", "graph", "astral", "classes", "sgr", "mixed"];
+pub const ALPHABETS: [&str; 11] = ["ab", "abc", "meta", "ws", "case", "graph", "astral", "classes", "sgr", "mixed", "clusters"];
+
+/// Unsplit multi-code-point graphemes mixing characters that are escaped/converted with ones that
+/// are not: Lo Prepend letters before X, and X before Extend characters that are not marks.
+pub fn cluster_tokens() -> Vec<String> {
+    let prepend = ["\u{d4e}", "\u{111c2}", "\u{11a3a}"];
+    let extend = ["\u{1f3fb}", "\u{1f3fd}", "\u{e33}", "\u{ff9e}"];
+    let xs = ["\\", ".", "1", "a", "\u{e9}", "^", " ", "\u{1f44d}"];
+    let mut v = vec![];
+    for x in xs {
+        for p in prepend {
+            v.push(format!("{p}{x}"));
+        }
+        v.push(format!("\u{d4e}\u{d4e}{x}"));
+        for e in extend {
+            v.push(format!("{x}{e}"));
+        }
+    }
+    v.push("\u{d4e}\u{111c2}\\".to_string());
+    v
+}
+
+/// Deterministic inputs around every cluster token: repeated (so that a quantifier has to bind to
+/// the whole grapheme), next to a shorter repeat, and inside an alternation.
+pub fn cluster_repeat_cases() -> Vec<Vec<String>> {
+    let mut v = vec![];
+    for t in cluster_tokens() {
+        v.push(vec![t.repeat(3)]);
+        v.push(vec![format!("x{}", t.repeat(2)), format!("x{}y", t.repeat(3))]);
+        v.push(vec![t.clone(), format!("{t}{t}"), "z".to_string()]);
+    }
+    v
+}
+
+/// Every blank / ignorable character repeated where no atom precedes it (start of the pattern, start
+/// of a group, after `|`), for verbose mode.
+pub fn blank_repeat_cases() -> Vec<Vec<String>> {
+    let mut v = vec![];
+    for c in alphabet("ws") {
+        if c == "a" {
+            continue;
+        }
+        v.push(vec![format!("{}a", c.repeat(3)), "b".to_string()]);
+        v.push(vec![c.repeat(3)]);
+        v.push(vec![format!("a{}", c.repeat(3)), format!("a{}", c.repeat(2)), "b".to_string()]);
+        v.push(vec![format!("{c}x"), format!("{c}y"), c.clone()]);
+    }
+    v
+}
+
+/// Uniformly random words over a tiny alphabet: 2..=9 test cases of length 1..=9 (the shape on which
+/// hash-order dependence of the minimiser was observed about once in 3000 sets).
+pub fn uniform_small(rng: &mut Rng, sigma: &[&str]) -> Vec<String> {
+    let n = 2 + rng.below(8);
+    (0..n)
+        .map(|_| {
+            let l = 1 + rng.below(9);
+            (0..l).map(|_| *rng.pick(sigma)).collect::<String>()
+        })
+        .collect()
+}
 
 pub fn alphabet(name: &str) -> Vec<String> {
+    if name == "clusters" {
+        let mut v = cluster_tokens();
+        v.extend(["a", "b", "1", ".", "\\", "\u{d4e}", "\u{1f3fb}"].iter().map(|s| s.to_string()));
+        return v;
+    }
     let v: Vec<&str> = match name {
         "ab" => vec!["a", "b"],
         "abc" => vec!["a", "b", "c"],
